@@ -134,7 +134,7 @@ def run(chk):
         for n in walk_no_nested(f.node):
             if isinstance(n, ast.Call) and isinstance(n.func, ast.Attribute) and n.func.attr in ("sendall", "send", "sendto", "sendmsg"):
                 n_send += 1
-                ok = f.cls is not None and f.cls.name == "Client" and f in exch
+                ok = f.cls is not None and f.cls.name == "Client" and f.name.startswith("_")  # the exchange functions or their send helper
                 r5.expect(ok, "send site in %s" % f.qualname, "%s:send-outside-Client" % f.qualname, "%s calls .%s on a socket outside Client's exchange functions" % (f.qualname, n.func.attr), fn=f, node=n)
             if isinstance(n, ast.Call) and isinstance(n.func, ast.Attribute) and n.func.attr in ("recv", "recv_into", "recvfrom", "makefile"):
                 n_recv += 1
@@ -183,20 +183,20 @@ def _loops_with_reader(fn, readers, rmeth):
 
 
 class CountDomain(exchange.ExchangeDomain):
-    """Counts reader calls / list appends inside one loop iteration."""
+    """Counts reader calls / list appends inside one loop iteration (reader calls inside inlined helpers included)."""
 
-    def __init__(self, prog, fn, readers, rmeth, lists=()):
-        super().__init__(prog, fn, readers, rmeth, with_async=False)
+    def __init__(self, prog, fn, readers, rmeth=None, lists=()):
+        super().__init__(prog, fn, readers, None, with_async=False)
         self.lists = set(lists)
+
+    def on_read(self, node, args, state):
+        return state.set("nread", min(3, state.get("nread", 0) + 1))
 
     def call(self, node, fval, args, kwargs, state):
         if isinstance(node.func, ast.Attribute) and node.func.attr in ("append", "extend", "insert") and isinstance(node.func.value, ast.Name) and node.func.value.id in self.lists:
             k = "app:" + node.func.value.id
             inc = 1 if node.func.attr == "append" else 2
             state = state.set(k, min(3, state.get(k, 0) + inc))
-        is_reader = (isinstance(node.func, ast.Name) and node.func.id in self.readers) or (isinstance(node.func, ast.Attribute) and is_self_attr(node.func) and node.func.attr in self.reader_methods)
-        if is_reader and not (isinstance(node.func, ast.Attribute) and node.func.attr in self.reader_methods):
-            state = state.set("nread", min(3, state.get("nread", 0) + 1))
         return super().call(node, fval, args, kwargs, state)
 
 
